@@ -471,8 +471,7 @@ func (self *VM) Wait() (coreNum uint, i *value.VmInterrupt) {
 					self.Cores.Cores = make([]Core, 0)
 					self.Cores.Lock.Unlock()
 
-					self.Cores.Lock.RLock()
-
+					// Return without holding the lock: otherwise the next spawn would block forever.
 					return core.Corenum, i
 				}
 			default:
